@@ -166,6 +166,26 @@ fn main() {
             println!("{}", wl::maps::run(which, seed, shard, count).to_string());
             0
         }
+        "maps-faults" => {
+            quiet_panics();
+            let get = |name: &str| args.iter().position(|a| a == name).and_then(|i| args.get(i + 1)).cloned();
+            let which = get("--profile").unwrap_or_else(|| "diff".into());
+            let seed: u64 = get("--seed").and_then(|s| s.parse().ok()).unwrap_or(1);
+            let shard: u64 = get("--shard").and_then(|s| s.parse().ok()).unwrap_or(0);
+            let count: u64 = get("--count").and_then(|s| s.parse().ok()).unwrap_or(100);
+            let start: u64 = get("--start").and_then(|s| s.parse().ok()).unwrap_or(0);
+            let cap: u64 = get("--cap").and_then(|s| s.parse().ok()).unwrap_or(40);
+            let progress = get("--progress");
+            println!("{}", wl::maps::run_faults(&which, seed, shard, start, count, cap, progress.as_deref()).to_string());
+            0
+        }
+        "maps-fault-one" => {
+            if std::env::var("VH_LOUD").is_err() { quiet_panics(); }
+            let o = wl::maps::run_history_fault(args[3].parse().unwrap(), &args[2], Some((args[4].parse().unwrap(), args[5].parse().unwrap())));
+            for a in &o.actions { println!("{a}"); }
+            for (p, m) in &o.violations { println!("VIOLATION {p} {m}"); }
+            if o.violations.is_empty() { 0 } else { 1 }
+        }
         "maps-one" => {
             if std::env::var("VH_LOUD").is_err() { quiet_panics(); }
             let o = wl::maps::run_history(args[3].parse().unwrap(), &args[2]);
